@@ -15,6 +15,23 @@ package main
 //               treated as additional word parameters named by mangling (f_char, a_field_extDeg, f_Card);
 //               assigned selectors (a.val ^= …) become mutable variables whose final values are returned
 //               when the function returns its receiver.
+//   slices      []uint is a Lean `List Nat` (a value): literals, make([]uint, n), append(s, x…) = s ++ [x…],
+//               append(s, r...) = s ++ r, len; `for _, x := range []uint{e1, …}` (no break/continue) is
+//               unrolled after evaluating the elements; indexing of slices is NOT supported
+//   switch      `switch x { case a, b: … }` on a variable (no break/fallthrough)
+//   loops       may be nested; `return` inside a loop only at nesting depth one; `break` belongs to the
+//               innermost loop
+//   recursion   a function that calls itself gets a recursion fuel as first argument:
+//               `go_f : Nat → args → res`, `go_f 0 _ = default`, the body calls `self := go_f recFuel`;
+//               callers pass `loopFuel`
+//   local objects  `x := a.Copy()`, `x := a.field.One()` (a call rooted at an object parameter) makes x a
+//               local object represented by its value word; `x.M(args)` as an expression is
+//               `method_M x args`, as a statement `x := method_M x args`, with `method_M` an uninterpreted
+//               function parameter (assumption: a method statement changes the value of its receiver
+//               only, as a function of the values of receiver and arguments); object arguments are
+//               passed as their `val` (a_val)
+//   shadowing   a function in which a name is declared again in a nested scope is refused (the
+//               continuation-passing translation into Lean `let`s would confuse the two variables)
 //
 // Control flow is translated by duplicating the continuation into both branches of a conditional, so no
 // join points are needed (the functions are tiny).
